@@ -46,6 +46,8 @@ ASSUMPTIONS = [
     "bi-monthly gap family); sub-daily meter data is never fed to the daily class (gap smearing belongs to C08)",
     "billing from_series: the temperature series extends through the closing read's timestamp (otherwise from_series trims "
     "the closing read as misaligned)",
+    "classes under test: opendsm.eemeter Daily/Billing/Hourly x Baseline/Reporting data classes (the legacy CalTRACK hourly "
+    "data classes use a different, warnings-only sufficiency routine and are not part of the property's anchors)",
 ]
 
 ZONE_FIXED = "Etc/GMT+6"
@@ -154,6 +156,12 @@ def daily_temp_values(n):
 
 
 def billing_lens(n, offcycle=False, bimonthly=False):
+    if bimonthly == "short_pair":
+        # bi-monthly calendar with two adjacent 35-day periods at positions 2 and 3
+        body = n - 70
+        base, r = divmod(body, 5)
+        lens = [base + (1 if i < r else 0) for i in range(5)]
+        return lens[:2] + [35, 35] + lens[2:]
     if bimonthly:
         k = max(2, round(n / 61))
         base, r = divmod(n, k)
@@ -207,7 +215,7 @@ def build(case):
         v[ug] = np.nan
         meter = pd.Series(v, index=days, name="observed")
     elif kind == "billing":
-        lens = billing_lens(n, offcycle=(defect == "offcycle"), bimonthly=case.get("regime") == "bimonthly")
+        lens = billing_lens(n, offcycle=(defect == "offcycle"), bimonthly={"bimonthly": True, "bimonthly_short_pair": "short_pair"}.get(case.get("regime"), False))
         starts = np.concatenate([[0], np.cumsum(lens)])
         reads = np.array([uvals[a:b].sum() for a, b in zip(starts[:-1], starts[1:])])
         rates = reads / np.array(lens)
@@ -329,15 +337,17 @@ def construct(case, inp):
 # one case
 # ----------------------------------------------------------------------------------------------
 def _key(case, **kw):
+    """coarse grouping key: one root cause should fall into a handful of groups"""
     fam = case["fam"]
-    k = {"cls": case["cls"], "role": case["role"],
-         "fam": fam if fam in ("nodata", "tonly", "bgap", "utcform") else "main"}
-    if case.get("nan_reads"):
-        k["gap"] = "nan_read_" + case.get("regime", "monthly")
-    if case.get("form"):
-        k["form"] = case["form"]
-    if case.get("column"):
-        k["column"] = case["column"]
+    if fam == "utcform":  # two root causes: tz spelled other than 'UTC'; datetime column instead of index
+        k = {"fam": fam, "form": "dtcol" if case.get("form") == "dtcol" else "tz_spelling"}
+    elif fam == "nodata":
+        k = {"fam": fam}
+    elif fam == "bgap":
+        k = {"cls": case["cls"], "fam": fam, "gap": "nan_read_" + case.get("regime", "monthly")}
+        kw.pop("criterion", None)
+    else:
+        k = {"cls": case["cls"], "role": case["role"], "fam": fam if fam == "tonly" else "main"}
     k.update(kw)
     return k
 
@@ -467,10 +477,16 @@ def value_cases(tier):
                             f = n // 10
                             ms = [0, f - 1, f] if tier == "quick" else m_values(n)
                             for m in ms:
-                                what = "none" if m == 0 else ("temp" if kind == "billing" else "same")
-                                out.append({"fam": "value", "cls": kind, "role": role, "fuel": fuel, "entry": entry,
-                                            "feed": feed, "N": n, "m": m, "what": what, "place": "interior",
-                                            "defect": defect})
+                                if m == 0:
+                                    ws = ["none"]
+                                elif tier == "quick":
+                                    ws = ["temp" if kind == "billing" else "same"]
+                                else:
+                                    ws = whats(kind)
+                                for what in ws:
+                                    out.append({"fam": "value", "cls": kind, "role": role, "fuel": fuel, "entry": entry,
+                                                "feed": feed, "N": n, "m": m, "what": what, "place": "interior",
+                                                "defect": defect})
     return out
 
 
@@ -548,6 +564,8 @@ def nodata_cases(tier):
         for role in ROLES:
             for entry, feed in entry_feed_pairs(kind, "quick"):
                 for col in ("both", "usage", "temp"):
+                    if role == "reporting" and col == "usage":
+                        continue  # = temperature-only reporting data, enumerated in its own family
                     for fuel in ("electric", "gas"):
                         out.append({"fam": "nodata", "cls": kind, "role": role, "fuel": fuel, "entry": entry, "feed": feed,
                                     "N": 365, "m": 0, "what": "none", "column": col})
@@ -575,7 +593,7 @@ def bgap_cases(tier):
     """billing reads whose value is missing (NaN) in the interior of the calendar"""
     out = []
     for role in ROLES:
-        for regime, sets in (("monthly", ([4], [4, 8])), ("bimonthly", ([2], [1, 3]))):
+        for regime, sets in (("monthly", ([4], [4, 8])), ("bimonthly", ([2], [1, 3])), ("bimonthly_short_pair", ([3],))):
             for nan_reads in sets:
                 for n in (329, 365):
                     for entry, feed in entry_feed_pairs("billing", "quick"):
@@ -625,7 +643,7 @@ def run(tier, seed):
         "counts, per criterion, the cases the reference decided either way (first reading) and the cases left open",
     )
     cov["decisions"] = decisions
-    cov["bands"] = {k[5:]: v for k, v in stats.items() if k.startswith("band_")}
+    cov["ambiguous_band"] = {k[5:]: v for k, v in stats.items() if k.startswith("band_")}
     cov["cases_with_ambiguous_band"] = stats.get("cases_with_band", 0)
     cov["warning_conditions_injected"] = {k[14:]: v for k, v in stats.items() if k.startswith("warn_required_")}
     cov["constructor_raised"] = stats.get("raised", 0)
